@@ -233,7 +233,7 @@ def _link_min_declared(i):
         'name': None, 'nrexcl': None,
         'nodes': [['BB', {'order': 0, 'atomname': 'BB'}], ['+BB', {'order': 1, 'atomname': 'BB'}],
                   ['<SC1', {'order': '<', 'atomname': 'SC1'}]],
-        'edges': sorted([sorted(['BB', '+BB']), sorted(['BB', '<SC1'])]),
+        'edges': sorted([sorted(['BB', '+BB']), sorted(['BB', '<SC1']), sorted(['+BB', '<SC1'])]),
         'interactions': {'bonds': [[['BB', '+BB'], ['1', '0.3'], {}]], 'angles': [[['<SC1', 'BB', '+BB'], ['2', '100'], {}]]},
         'meta': {}, 'non_edges': [], 'removed': {}, 'molecule_meta': {}, 'patterns': [],
         'features': ['f%d' % i],
@@ -241,14 +241,15 @@ def _link_min_declared(i):
 
 
 def ch_link_prefix(i, st):
-    lines = ['[ link ]', '[ bonds ]', 'BB +BB 1 0.3', '[ angles ]', '<SC1 BB +BB 2 100', '[ features ]', 'f%d' % i]
+    lines = ['[ link ]', '[ bonds ]', 'BB +BB 1 0.3', '[ angles ]', '<SC1 BB +BB 2 100', '[ edges ]', '+BB <SC1', '[ features ]', 'f%d' % i]
     return lines, ('link', _link_min_declared(i))
 
 
 def ch_link_attr(i, st):
     """The same link with explicit order attributes instead of prefixes."""
     lines = ['[ link ]', '[ bonds ]', 'BB BB {"order": 1} 1 0.3', '[ angles ]',
-             'SC1 {"order": "<"} BB {"order": 0} BB {"order": 1} -- 2 100', '[ features ]', 'f%d' % i]
+             'SC1 {"order": "<"} BB {"order": 0} BB {"order": 1} -- 2 100', '[ edges ]', 'BB {"order": 1} SC1 {"order": "<"}',
+             '[ features ]', 'f%d' % i]
     return lines, ('link', _link_min_declared(i))
 
 
